@@ -9,6 +9,7 @@ undecided (within 1e-6 of a threshold, degenerate normals) are only counted.
 import json
 import re
 
+import numpy
 from core import history_probe, Result, ddmin, parallel_map
 from gen import g3
 
@@ -152,6 +153,11 @@ def build_inputs(ctx, res):
             cases.append(("axis-perm", g3.rigid(s, m), None))
     for rep in range(ctx.pick(2, 12)):
         for tag, expected, st in g3.stack_straddles(rng):
+            if rng.random() < 0.3:
+                # the same placement far from the origin (PDB coordinates reach +-9999.999): single-precision
+                # arithmetic anywhere in the pipeline rounds such coordinates by up to 1e-3
+                st = g3.rigid(st, numpy.eye(3), [rng.choice([-1, 1]) * rng.uniform(2000, 9000) for _ in range(3)])
+                tag = tag + "@far"
             cases.append(("straddle:" + tag, st, None))
             _EXPECTED[id(st)] = expected
     for _ in range(ctx.pick(600, 8000)):
